@@ -120,6 +120,10 @@ def effective(kw):
     for o in VTYPES:
         if kw.get(o) is None:
             full[o] = vt if vt is not None else DEFAULTS[o]
+    w = full.get('warning_cls_on_decorator_exception')
+    if getattr(w, '__name__', '') == '_BeartypeConfReduceDecoratorExceptionToWarningDefault':
+        # the placeholder conf.kwargs holds for 'not passed': reads back as None
+        full['warning_cls_on_decorator_exception'] = None
     if os.environ.get('BEARTYPE_IS_COLOR') is not None:
         # documented environment-variable adjustment: the variable wins over whatever was passed
         full['is_color'] = {'True': True, 'False': False, 'None': None}[os.environ['BEARTYPE_IS_COLOR']]
@@ -156,6 +160,10 @@ def check_history(kws):
 def _check_history(kws):
     made = []
     for kw in kws:
+        if callable(kw):                 # an entry computed from the configurations made so far
+            kw = kw(made)
+            if kw is None:
+                continue
         conf, exc = create(kw)
         ok = all(valid(o, v) for o, v in kw.items()) and jointly_valid(kw)
         if ok and conf is None:
@@ -388,6 +396,19 @@ def spec_env_color(value):
                 warm=['0, 1, True', '2, 0, False', '1, 2, None'], timeout=200, stubs=False)
 
 
+def spec_kwargs_lookalike(a):
+    """create({a: v1}); then create(**{**first.kwargs, a: v2}) -- every option spelled out in its defaulted form,
+    one of them replaced by a value from the look-alike menu."""
+    params = [('i1', 'int'), ('i2', 'int')]
+    body = (f"M = [True, False, 1, 0, 1.0, None]\n"
+            f"def second(made):\n"
+            f"    if not made:\n        return None\n"
+            f"    kw = dict(made[-1][1].kwargs)\n    kw['{a}'] = pick(M, i2)\n    return kw\n"
+            f"return check_history([{{'{a}': pick(M, i1)}}, second])")
+    return Spec(f'kwlook_{a}', params, body, setup=SETUP, pre=['0 <= i1 < 6', '0 <= i2 < 6'],
+                warm=['0, 1', '0, 2', '1, 3'], timeout=300, stubs=False)
+
+
 def spec_cls_bool(a, b):
     params = [('i1', 'int'), ('i2', 'int'), ('w1', NUM), ('w2', NUM)]
     body = (f"return check_history([{{'{a}': pick(CLASSES, i1), '{b}': w1}}, {{'{b}': w2, '{a}': pick(CLASSES, i2)}}])")
@@ -409,7 +430,8 @@ def specs(tier, seed=0):
                 spec_cls_pair('violation_type', 'violation_door_type'), spec_cls_quad(2),
                 spec_coll('claw_skip_package_names', 13), spec_coll('hint_overrides', 8), spec_tower(),
                 spec_lookalike('is_debug'), spec_lookalike('is_color'),
-                spec_enum_pair('claw_decor_place_func', 'claw_decor_place_type'), spec_env_color('True')]
+                spec_enum_pair('claw_decor_place_func', 'claw_decor_place_type'), spec_env_color('True'),
+                spec_kwargs_lookalike('is_debug')]
         # a seed-dependent handful of the 136 option pairs (all of them in the thorough tier)
         rng = _random.Random(f'c17:{seed}')
         out += [spec_generic_pair(a, b) for a, b in rng.sample(every_pair, 4)]
@@ -427,6 +449,7 @@ def specs(tier, seed=0):
     out += [spec_lookalike(a) for a in BOOL_OPTS]
     out += [spec_generic_pair(a, b) for a, b in every_pair]
     out += [spec_env_color(v) for v in ('True', 'False', 'None')]
+    out += [spec_kwargs_lookalike(a) for a in BOOL_OPTS if a != 'is_color']
     out += [spec_enum_pair('claw_decor_place_func', 'claw_decor_place_type'), spec_enum_pair('strategy', 'violation_verbosity'),
             spec_enum_pair('claw_decor_place_type', 'strategy')]
     out += [spec_tower(), spec_coll('claw_skip_package_names', 13), spec_coll('hint_overrides', 8),
